@@ -1,5 +1,11 @@
+import glob
+import json
+import os
 import re
+import subprocess
+import sys
 
+import vlib
 from vlib import Prop
 from props.c16 import hx
 from props.c02 import frame, payload_for, KNOWN, H2, OTHER, varint
@@ -7,6 +13,15 @@ from props.c02 import frame, payload_for, KNOWN, H2, OTHER, varint
 REQ_HEADERS = "010d0000d1d750831af1ff518263cf"          # GET https://a.b/x
 RESP_HEADERS = "01030000d9"                               # 200
 SETTINGS = "000400"
+
+
+def _inventory_files():
+    sys.path.insert(0, os.path.join(vlib.ROOT, "tools"))
+    try:
+        import panic_sites
+        return panic_sites.FILES
+    finally:
+        sys.path.pop(0)
 
 
 def ended_streams(ops):
@@ -23,7 +38,6 @@ def ended_streams(ops):
 
 class C06(Prop):
     id = "C06"
-    claim = False
     modules = ["H3.Props.C06"]
     engines = ["adv"]
     design_ref = "DESIGN.md section 7, C06"
@@ -197,6 +211,56 @@ class C06(Prop):
                 rng_ops = list(ops)
                 L.append("adv %s %s %s" % (role, cfg, " ".join(rng_ops)))
         return L
+
+    # ---- the panic-site inventory is part of the check (DESIGN section 7, C06: "tie to source")
+    def extra(self, tier, rng, ctx):
+        """Runs tools/panic_sites.py on the repository: every panic-capable site on the receive-path
+        files must be listed in tools/panic_table.json (an unlisted site = the code changed in a way
+        the argument does not cover = broken obligation), and every theorem / model name a
+        justification cites must exist in the Lean sources of this run."""
+        res = []
+        tool = os.path.join(vlib.ROOT, "tools", "panic_sites.py")
+        table_path = os.path.join(vlib.ROOT, "tools", "panic_table.json")
+        p = subprocess.run([sys.executable, tool, vlib.REPO, "--table", table_path],
+                           capture_output=True, text=True)
+        try:
+            out = json.loads(p.stdout.strip().split("\n")[-1])
+        except Exception:
+            return [("broken", "panic-site inventory: tools/panic_sites.py did not run: %s"
+                     % (p.stderr.strip()[-200:] or p.stdout.strip()[-200:]), {})]
+        for u in out.get("unlisted", []):
+            res.append(("broken", "panic-site inventory: unlisted site %s" % u,
+                        {"site": u, "kind": "panic-capable site not covered by tools/panic_table.json"}))
+        # names cited by the justifications
+        src = {}
+        for f in glob.glob(os.path.join(vlib.ROOT, "lean", "H3", "**", "*.lean"), recursive=True):
+            src[f] = open(f).read()
+        decl = set()
+        for t in src.values():
+            for m in re.finditer(r"^(?:private )?(?:theorem|def|structure|inductive|abbrev)\s+([A-Za-z0-9_.?']+)", t, re.M):
+                decl.add(m.group(1).split(".")[-1])
+        table = json.load(open(table_path))
+        cited = set()
+        for e in table["sites"]:
+            why = e.get("why", "")
+            for n in re.findall(r"\bC\d\d_\w+", why):
+                cited.add(n)
+                if n not in decl:
+                    res.append(("broken", "panic-site inventory: justification of `%s` (%s) cites theorem %s, which does not exist"
+                                % (e["line"][:60], e["file"], n), {"site": e["line"], "name": n}))
+            for n in re.findall(r"\bH3(?:\.[A-Za-z0-9_?']+)+", why):
+                last = n.split(".")[-1]
+                # a namespace (H3.Huffman) or a declaration (H3.FS.pollNext)
+                is_ns = any(re.search(r"^namespace\s+%s\b" % re.escape(n), t, re.M) for t in src.values())
+                if not is_ns and last not in decl:
+                    res.append(("broken", "panic-site inventory: justification of `%s` (%s) cites %s, which does not exist"
+                                % (e["line"][:60], e["file"], n), {"site": e["line"], "name": n}))
+        if not res:
+            res.append(("note", "panic-site inventory: %d sites found on %d receive-path files, %d listed, 0 unlisted, "
+                                "%d stale table entries; %d distinct theorems cited by the justifications, all present"
+                        % (out.get("found", 0), len(_inventory_files()), out.get("listed", 0),
+                           out.get("stale_entries", 0), len(cited)), {}))
+        return res
 
     def shrink_candidates(self, line):
         w = line.split()
